@@ -43,7 +43,6 @@ Section Generic.
   Qed.
 End Generic.
 
-Definition always {A} (_ : A) : Prop := True.
 
 Lemma tls_record_unit : frame_unit_ok parse_tls_record compose_tls_record always (lv_declared 5 tls_record_plen).
 Proof.
@@ -67,6 +66,25 @@ Lemma pg_sync_unit : frame_unit_ok parse_pg_sync compose_pg_sync always (lv_decl
 Proof.
   apply lv_unit_ok; [lia|exact (zero_plen_nonneg pg_sync_check)|intros v n h _; apply pg_sync_mk_spec|exact pg_sync_check_noleak].
 Qed.
+
+(* C05 for the units: the object parsed from any accepted buffer composes and the result parses back to it *)
+Definition canonical_ok {hv : Type} (parse : bytes -> result ((hv * bytes) * Z)) (compose : hv * bytes -> result bytes) : Prop :=
+  forall buf x n, parse buf = Ok (x, n) -> exists b2, compose x = Ok b2 /\ parse b2 = Ok (x, zlen b2).
+
+Lemma tls_record_canonical : canonical_ok parse_tls_record compose_tls_record.
+Proof. intros buf x n. eapply lv_canonical with (okv := always); [lia|exact tls_record_plen_nonneg|intros v m h _; apply tls_record_mk_spec|exact tls_record_mk_total]. Qed.
+Lemma handshake_canonical ty : canonical_ok (parse_handshake ty) (compose_handshake ty).
+Proof. intros buf x n. eapply lv_canonical with (okv := always); [lia|exact (handshake_plen_nonneg ty)|intros v m h _; apply handshake_mk_spec|exact (handshake_mk_total ty)]. Qed.
+Lemma mysql_canonical : canonical_ok parse_mysql_record compose_mysql_record.
+Proof. intros buf x n. eapply lv_canonical with (okv := always); [lia|exact mysql_plen_nonneg|intros v m h _; apply mysql_mk_spec|exact mysql_mk_total]. Qed.
+Lemma tpkt_canonical : canonical_ok parse_tpkt compose_tpkt.
+Proof. intros buf x n. eapply lv_canonical with (okv := fun v => v = 3); [lia|exact tpkt_plen_nonneg|exact tpkt_mk_spec|exact tpkt_mk_total]. Qed.
+Lemma ovpn_canonical : canonical_ok parse_ovpn_tcp compose_ovpn_tcp.
+Proof. intros buf x n. eapply lv_canonical with (okv := always); [lia|exact ovpn_plen_nonneg|intros v m h _; apply ovpn_mk_spec|exact ovpn_mk_total]. Qed.
+Lemma pg_sslrequest_canonical : canonical_ok parse_pg_sslrequest compose_pg_sslrequest.
+Proof. intros buf x n. eapply lv_canonical with (okv := always); [lia|exact (zero_plen_nonneg pg_sslrequest_check)|intros v m h _; apply pg_sslrequest_mk_spec|exact pg_sslrequest_mk_total]. Qed.
+Lemma pg_sync_canonical : canonical_ok parse_pg_sync compose_pg_sync.
+Proof. intros buf x n. eapply lv_canonical with (okv := always); [lia|exact (zero_plen_nonneg pg_sync_check)|intros v m h _; apply pg_sync_mk_spec|exact pg_sync_mk_total]. Qed.
 
 (* ---- the entry-point laws for any unit -------------------------------------------------------------------- *)
 Section EntryLaws.
